@@ -68,6 +68,67 @@ def example_task(t):
     return {"name": name, "exit": res.exit, "traced": bool(res.trace)}
 
 
+def cyc_program(rnd):
+    """A small program whose *globals* depend on each other in a seeded graph that usually has
+    cycles - i.e. an invalid program (circular definitions), or a valid one whose value globals
+    wait on recursive functions. The property quantifies over every history the checker can
+    produce, and yields inside cycle-breaking rounds come almost only from such programs."""
+    n = rnd.randint(3, 7)
+    names = ["g%d" % i for i in range(n)]
+    lines = []
+    for i, g in enumerate(names):
+        others = [x for x in names if x != g]
+        k = rnd.choice([0, 1, 1, 1, 2])
+        deps = rnd.sample(others, min(k, len(others)))
+        if rnd.random() < 0.1:
+            deps.append(g)                       # a global that names itself
+        form = rnd.choice(["plain", "plain", "comptime", "comptime_locals", "lambda", "fn", "typed", "fn_rec"])
+        expr = " + ".join(deps + [str(rnd.randint(1, 9))])
+        if form == "plain":
+            lines.append("%s :: %s;" % (g, expr))
+        elif form == "typed":
+            lines.append("%s : i64 : comptime { %s };" % (g, expr))
+        elif form == "comptime":
+            lines.append("%s :: comptime { %s };" % (g, expr))
+        elif form == "comptime_locals":
+            first = deps[0] if deps else "1"
+            lines.append("%s :: comptime { seed := %s; t := seed + 2; t + %s };" % (g, first, expr))
+        elif form == "lambda":
+            lines.append("%s :: comptime { helper := () -> i64 { %d }; helper() + %s };" % (
+                g, rnd.randint(1, 9), expr))
+        elif form == "fn":
+            lines.append("%s :: () -> i64 { %s }" % (g, " + ".join(
+                [("%s()" % d if False else d) for d in deps] + ["1"])))
+        else:
+            lines.append("%s :: (a: i64) -> i64 { if a <= 0 { %s } else { %s(a - 1) } }" % (g, expr, g))
+    # function-valued globals cannot be added to integers: that is a type error, not a scheduling
+    # matter, and every outcome of the compiler is fine here - only the recorded history is judged
+    rnd.shuffle(lines)
+    lines.append("main :: () -> i32 { 0 }")
+    return {"main.capy": "\n".join(lines) + "\n"}
+
+
+def cyc_task(t):
+    seed, idx, traces_dir = t
+    import random
+    rnd = random.Random(common.sub_seed(seed, "c26-cyc", idx))
+    files = cyc_program(rnd)
+    bx = common.worker_box()
+    bx.clean_proj()
+    bx.write_tree(files)
+    res = bx.compile(["build", "main.capy", "--mod-dir", bx.mods, "--no-exec"], boxmod.REFERENCE_WORLD,
+                     trace=True, timeout=6)
+    if res.trace:
+        with open(os.path.join(traces_dir, "cyc%06d.trace" % idx), "w") as f:
+            f.write(res.trace)
+    return {"idx": idx, "exit": res.exit, "timed_out": res.timed_out, "traced": bool(res.trace)}
+
+
+def cyc_files(seed, idx):
+    import random
+    return cyc_program(random.Random(common.sub_seed(seed, "c26-cyc", idx)))
+
+
 def replay(path):
     with open(path) as f:
         doc = json.load(f)
@@ -148,6 +209,10 @@ def main(tier, seed, replay_path=None):
                                 traces_dir=traces_dir, deadline=t0 + (150 if tier == "quick" else 2400))
         examples = sorted(f for f in os.listdir(os.path.join(common.REPO, "examples")) if f.endswith(".capy"))
         ex = common.parallel_map(example_task, [(e, traces_dir) for e in examples])
+        cyc_seed = common.sub_seed(seed, "c26-cyc-batch") & 0xFFFFFFFF
+        n_cyc = 150 if tier == "quick" else 4000
+        cyc = common.parallel_map(cyc_task, [(cyc_seed, i, traces_dir) for i in range(n_cyc)],
+                                  deadline=time.time() + (60 if tier == "quick" else 1200))
         tr_out = os.path.join(work, "trace-summary.json")
         code, stdout = run_toposim(["trace", traces_dir, "--out", tr_out])
         with open(tr_out) as f:
@@ -158,7 +223,9 @@ def main(tier, seed, replay_path=None):
                 text = f.read()
             base = os.path.basename(v["file"])
             files = None
-            if base.startswith("p"):
+            if base.startswith("cyc"):
+                files = cyc_files(cyc_seed, int(base[3:9]))
+            elif base.startswith("p"):
                 # re-generate the program and variant that produced this trace
                 idx = int(base[1:7])
                 j = -1 if "-base" in base else int(base.split("-v")[1][:2])
@@ -213,6 +280,9 @@ def main(tier, seed, replay_path=None):
                 "c20_workload_programs": len(results),
                 "c20_workload_runs": sum(1 + r["variants"] for r in results),
                 "repository_examples": len([e for e in ex if e["traced"]]),
+                "cyclic_global_programs": len(cyc),
+                "cyclic_global_programs_accepted": len([c for c in cyc if c["exit"] == 0]),
+                "cyclic_global_programs_compiler_timed_out": len([c for c in cyc if c["timed_out"]]),
             },
             "simulated_components": {
                 "real": ["topo::TopoSort (crates/topo)", "InferenceCtx::finish round loop (part b, via hook H1)"],
